@@ -513,6 +513,43 @@ func run(dir string, seed uint64, tier string) error {
 			call(rd.name, rd.run, s, dl)
 		}
 	}
+	// structured streams for the multi-member archive readers: every sequence of 0..4
+	// gzip members drawn from {signature, control, data} (so every count of members,
+	// every order, every truncation at a member boundary), each also cut one byte
+	// short and extended by one stray byte
+	{
+		data := tgz([2]string{"usr/", ""}, [2]string{"usr/bin/", ""}, [2]string{"usr/bin/hello", "#!/bin/sh\necho hi\n"})
+		dh := sha256.Sum256(data)
+		ctl := tgz([2]string{".PKGINFO", fmt.Sprintf("pkgname = hello\npkgver = 1.0-r0\narch = x86_64\nsize = 18\norigin = hello\ndatahash = %x\n", dh)})
+		sig := tgz([2]string{".SIGN.RSA.test.rsa.pub", "not-a-signature"})
+		members := [][]byte{sig, ctl, data}
+		var seqs [][]byte
+		var rec func(prefix []byte, depth int)
+		rec = func(prefix []byte, depth int) {
+			seqs = append(seqs, append([]byte{}, prefix...))
+			if depth == 4 {
+				return
+			}
+			for _, m := range members {
+				rec(append(append([]byte{}, prefix...), m...), depth+1)
+			}
+		}
+		rec(nil, 0)
+		for _, name := range []string{"expandapk.ExpandApk", "expandapk.Split", "ParsePackage", "IndexFromArchive"} {
+			rd, ok := byName[name]
+			if !ok {
+				continue
+			}
+			for _, q := range seqs {
+				call(name, rd.run, q, dl)
+				if len(q) > 0 {
+					call(name, rd.run, q[:len(q)-1], dl)
+				}
+				call(name, rd.run, append(append([]byte{}, q...), 0x1f), dl)
+			}
+		}
+	}
+
 	// oversized members / lines
 	call("ParsePackageIndex", byName["ParsePackageIndex"].run, []byte("P:a\nD:"+strings.Repeat("x", 2<<20)+"\n\n"), dl)
 	call("ParseInstalled", byName["ParseInstalled"].run, []byte("P:a\nD:"+strings.Repeat("x", 2<<20)+"\n\n"), dl)
